@@ -14,6 +14,12 @@ import loopx
 
 def run(c):
     loopx.run_suite(c, 'C09')
+    # run-once: the loop may return only after the upload decision of the iteration in which nothing is left to wait
+    # for (LSLoop Exit / ExitOnlyWhenDone, model checked under C16) - a commit made while LS was down is published first
+    loopx.run_extra(c, 'C09', 'once', extra_props=('C16',), exhaustive=False)
+    # storage_retry_forever: more Store failures than storage_retry_count, then success
+    import vlib
+    vlib.absorb(c, vlib.run_harness(['retry-forever'], timeout=300))
     c.assumptions += ['"running" starts after the start-up capture; changes made while LS is down are stamped 1 ns (documented)',
                       'shadow mode sees net changes between two LS transactions', 'one instance + environment; one key (quick)']
     c.extra['rule'] = 'simulated behaviours of LSLoop (deduplicated) replayed through the real sync loop; distinct = behaviours longer than 6 steps'
